@@ -70,7 +70,26 @@ class Extractor:
             sel = [h for h in hits if R[h[0] if isinstance(h, tuple) else h].get('tdefault')]
         return sel if len(sel) == 1 else hits
 
-    def resolve_free(self, name, sig, hint=None):
+    def pick_ns(self, hits, qual):
+        """same name and signature in two namespaces (ada::unicode:: / ada::idna::): use the qualifier written at the call
+        site, else the namespace of the calling function"""
+        if len(hits) <= 1 or not qual:
+            return hits
+        q, caller = qual
+        if q:
+            sel = [h for h in hits if (R[h]['filt'].rsplit('::', 1)[0] + '::').endswith(q)]
+            if len(sel) == 1:
+                return sel
+        cr = R.get(caller)
+        if cr:
+            ns = cr['filt'].rsplit('::', 1)[0]
+            # members: strip the class name
+            sel = [h for h in hits if R[h]['filt'].rsplit('::', 1)[0] == ns or ns.startswith(R[h]['filt'].rsplit('::', 1)[0] + '::')]
+            if len(sel) == 1:
+                return sel
+        return hits
+
+    def resolve_free(self, name, sig, hint=None, qual=None):
         cands = self.by_name.get(name, [])
         want = norm_sig(sig)
         hits = []
@@ -81,6 +100,7 @@ class Extractor:
             if n is not None and norm_sig(n['type']['qualType']) == want:
                 hits.append(c)
         hits = self.pick(hits, hint)
+        hits = self.pick_ns(hits, qual)
         if len(hits) == 1:
             return hits[0]
         return None
